@@ -568,6 +568,18 @@ theorem c02_plain_run_is_filter (i : Inst) (q : Queues) (ws : List Wire) (hplain
         rw [this, c02_honest_plain_delivered i q w s n hs hw hv]
         simp [ih']
 
+/-- non-vacuity of `c02_plain_run_is_filter`: five envelopes of a plain type, two acceptable -/
+example : (([⟨3, some 12, some 2, 1, none⟩, ⟨3, some 12, some 3, 2, none⟩, ⟨3, none, some 2, 3, none⟩,
+             ⟨3, some 99, some 2, 4, none⟩, ⟨3, some 13, some 3, 5, none⟩] : List Wire).filterMap (accept nodes4))
+    = [(⟨12, 2⟩, ⟨3, 12, some 2, 1⟩), (⟨13, 3⟩, ⟨3, 13, some 3, 5⟩)] := by decide
+
+/-- non-vacuity of `c02_sound_ops` / `c02_parked_then_flushed`: two envelopes arrive before the tree, one forged;
+nothing is delivered until the tree arrives, then the honest one is -/
+example : opRun { nodes := nodes4, parent := some 10, nChildren := 2, agg := fun _ => false } { parked := some [] }
+    [.msg ⟨3, some 12, some 3, 1, none⟩, .msg ⟨3, some 12, some 2, 2, none⟩, .treeArrives, .rereg,
+     .msg ⟨3, some 13, some 3, 3, none⟩]
+    = [[(⟨12, 2⟩, ⟨3, 12, some 2, 2⟩)], [(⟨13, 3⟩, ⟨3, 13, some 3, 3⟩)]] := by decide
+
 /-! ### this model's `aggregate` is property C04's
 
 C02 carries its own copy of `TreeNodeInstance.aggregate` (over messages that still name their claimed sender and
